@@ -510,3 +510,33 @@ Theorem gas_price_guard_with_and_refuted :
   forall amount, amount <> 0 -> gas_price_and amount 0 = Fatal.
 Proof. exact gas_price_and_refuted. Qed.
 Print Assumptions gas_price_guard_with_and_refuted.
+
+(* ---- validator election with the VRF beacon backend ---- *)
+
+(* proofs submitted by nodes that are not validator candidates (compute nodes, observers,
+   frozen / expired / under-staked validators) never change the election *)
+Theorem vrf_election_ignores_proofs_of_other_nodes :
+  forall p ents epoch nodes pe pn beta beta',
+    (forall n, In n (vcands p ents epoch nodes) -> beta (n_id n) = beta' (n_id n)) ->
+    elect_validators_vrf p ents epoch nodes pe pn beta = elect_validators_vrf p ents epoch nodes pe pn beta'.
+Proof. exact vrf_election_ignores_other_proofs. Qed.
+Print Assumptions vrf_election_ignores_proofs_of_other_nodes.
+
+(* when fewer than MinValidators candidates have a proof the election IS the entropy-path
+   election, which succeeds under the documented precondition (election_total_under_precondition) *)
+Theorem vrf_election_falls_back_without_validator_proofs :
+  forall p ents epoch nodes pe pn beta,
+    len (filter (has_pi beta) (vcands p ents epoch nodes)) < p_min p ->
+    elect_validators_vrf p ents epoch nodes pe pn beta = elect_validators p ents epoch nodes pe pn.
+Proof. exact vrf_election_falls_back. Qed.
+Print Assumptions vrf_election_falls_back_without_validator_proofs.
+
+(* counting the proofs of ALL nodes in the fallback test is refuted: two eligible validators
+   without proofs and two foreign proofs elect nobody *)
+Theorem vrf_fallback_on_all_proofs_refuted :
+  let p := mkParams 2 100 1 true false in
+  let nodes := [ex_node 1; ex_node 2] in
+  elect_validators_vrf_any_proofs p [] 1 nodes [0; 1] [0; 1] (fun _ => None) 2 = VErrNone /\
+  exists vals vents, elect_validators_vrf p [] 1 nodes [0; 1] [0; 1] (fun _ => None) = VOk vals vents /\ len vals = 2.
+Proof. exact vrf_any_proofs_refuted. Qed.
+Print Assumptions vrf_fallback_on_all_proofs_refuted.
